@@ -45,7 +45,9 @@ def prepare_rows(ctx):
     if hasattr(ctx, "_prep"):
         return ctx._prep
     name = find_prepare(ctx)
-    outs = ctx.px(name, inline=lambda c, d: SM.is_cast_helper(ctx, c.get("res_path")), key="casts")
+    # crate-local helpers (the integer-cast helper, anything a maintainer extracts from the loop body) are expanded
+    from .common import helper_inline
+    outs = ctx.px(name, inline=helper_inline(ctx), key="helpers")
     b = ctx.facts.bodies[name]
     params = {}
     for i in range(1, b["arg_count"] + 1):
@@ -265,6 +267,7 @@ def find_stream(ctx):
         raise FailClosed("multipart stream struct not found uniquely")
     a = cands[0]
     roles = {}
+    phase = []
     for f in a["variants"][0]["fields"]:
         t = f["ty"]
         if t.startswith("std::option::Option<") and "Stream" in t:
@@ -279,12 +282,69 @@ def find_stream(ctx):
             roles["remaining"] = f["name"]
         elif "dyn Entity" in t:
             roles["entity"] = f["name"]
+        elif t == "bool" or _two_unit_variants(ctx, t):
+            phase.append(f)
     if set(roles) != {"cur", "state", "part_headers", "ranges", "remaining", "entity"}:
         raise FailClosed("multipart stream fields not recognised by type: %r" % roles)
+    # position representation: one packed integer 2h+p, or a part index h plus a two-valued phase field p
+    if len(phase) == 1:
+        roles["part"] = roles["state"]
+        roles["phase"] = phase[0]["name"]
+        roles["phase_values"] = _phase_values(ctx, a["path"], roles, phase[0]["ty"])
+        roles["rep"] = "split"
+    elif phase:
+        raise FailClosed("multipart stream has several two-valued fields: %r" % [f["name"] for f in phase])
+    else:
+        roles["rep"] = "packed"
     pn = impl_fn(ctx, "futures_core::Stream", a["path"], "poll_next")
     if len(pn) != 1:
         raise FailClosed("no unique poll_next for %s" % a["path"])
     return a["path"], roles, pn[0]
+
+
+def _two_unit_variants(ctx, ty):
+    a = ctx.facts.adts.get(ty)
+    return bool(a) and a.get("local") and a["kind"] == "enum" and len(a["variants"]) == 2 and all(not v["fields"] for v in a["variants"])
+
+
+def _phase_values(ctx, adt, roles, ty):
+    """(value of the phase field at position 0 = what the constructor stores, the other value)"""
+    from ..check import FailClosed
+    from .common import aggregates
+    v0 = set()
+    for b, i, st in aggregates(ctx.facts, adt):
+        for o in ctx.px(b["name"]):
+            if o.kind == "return" and is_agg(o.value):
+                v0.add(agg_get(o.value, roles["phase"]))
+    if len(v0) != 1:
+        raise FailClosed("multipart stream: initial phase value not found uniquely: %r" % (v0,))
+    v0 = next(iter(v0))
+    if ty == "bool" and is_const(v0):
+        return v0, const(1 - v0[1])
+    if is_agg(v0):
+        other = [v["name"] for v in ctx.facts.adts[ty]["variants"] if v["name"] != v0[3]]
+        return v0, agg(v0[1], v0[2], other[0], ())
+    raise FailClosed("multipart stream: initial phase value %r not understood" % (v0,))
+
+
+def read_pos(ctx, o, roles):
+    """the position at the end of path o as pack(h, p) (whatever the representation)"""
+    if roles["rep"] == "packed":
+        return final_read(ctx, o, SELF, (("f", roles["state"]),))
+    part = final_read(ctx, o, SELF, (("f", roles["part"]),))
+    ph = final_read(ctx, o, SELF, (("f", roles["phase"]),))
+    v0, v1 = roles["phase_values"]
+    if ph == v0:
+        return pack(part, const(0))
+    if ph == v1:
+        return pack(part, const(1))
+    return ("unknown_position", part, ph)
+
+
+def pos_fields(roles, h, p):
+    if roles["rep"] == "packed":
+        return ((roles["state"], pack(h, const(p))),)
+    return ((roles["part"], h), (roles["phase"], roles["phase_values"][p]))
 
 
 SELF = ("H", ("param", 1))
@@ -303,7 +363,7 @@ def stream_cases():
 def mk_self(adt, roles, h, p, cur_some, rem=REM, ph=PH):
     return agg("adt", adt, None, (
         (roles["cur"], some(CURS) if cur_some else NONE),
-        (roles["state"], pack(h, const(p))),
+    ) + pos_fields(roles, h, p) + (
         (roles["part_headers"], ph),
         (roles["ranges"], RG),
         (roles["entity"], ("sym", "entity")),
@@ -337,13 +397,15 @@ def run_case(ctx, adt, roles, pn, p, cur_some, selfval=None, rels=None, cons0=No
         # the loop head is reached from the entry with the same object state: re-impose it on the havocked fields
         if fr.fid == 0:
             st.env[SELF] = sv
-    return ctx.px(pn, inline=lambda c, d: SM.is_cast_helper(ctx, c.get("res_path")), setup=setup, loop_assume=loop_assume, key="mp")
+    # crate-local helpers (integer casts, a position-advancing method, ...) are expanded
+    from .common import helper_inline
+    return ctx.px(pn, inline=helper_inline(ctx, own=(adt,)), setup=setup, loop_assume=loop_assume, key="mp")
 
 
 def inv_holds(ctx, o, roles):
     """-> (ok, why, (h', p', cur'))"""
     sv = final_read(ctx, o, SELF, ())
-    stt = final_read(ctx, o, SELF, (("f", roles["state"]),))
+    stt = read_pos(ctx, o, roles)
     cur = final_read(ctx, o, SELF, (("f", roles["cur"]),))
     if not (isinstance(stt, tuple) and stt[0] == "pack" and is_const(stt[2])):
         return False, "position field %s is not of the form 2h+p with a known parity" % short(stt, 60), (None, None, None)
@@ -508,7 +570,7 @@ def correspondence(ctx, rule):
             if is_agg(cur2) and cur2[3] == "Some" and isinstance(agg_get(cur2, "0"), tuple) and agg_get(cur2, "0")[0] == "call" \
                     and "::new" in agg_get(cur2, "0")[1]:
                 els = agg_get(cur2, "0")
-                stt = final_read(ctx, o, SELF, (("f", roles["state"]),))
+                stt = read_pos(ctx, o, roles)
                 hcur = stt[1] if isinstance(stt, tuple) and stt[0] == "pack" else None
                 ok = False
                 if isinstance(els, tuple) and els[0] == "call" and "::new" in els[1]:
@@ -532,7 +594,7 @@ def correspondence(ctx, rule):
             # progress: a piece that is not a chunk of the current part (a part header or the trailer) is emitted once:
             # the position must move on, otherwise the next poll emits the same piece again
             if not (isinstance(payload, tuple) and payload[0] == "payload"):
-                stt = final_read(ctx, o, SELF, (("f", roles["state"]),))
+                stt = read_pos(ctx, o, roles)
                 if stt == pack(H, const(p)):
                     ctx.violation(rule, rule + "|no-progress|p=%d" % p, "after emitting %s the position is unchanged (%s): the next poll emits the same piece again" %
                                   ("a part header" if "elem" in repr(payload)[:300] else "the trailer", short(stt, 30)), where=_last_where(o))
@@ -554,7 +616,8 @@ def correspondence(ctx, rule):
                         x[1][2] == _post_h(ctx, o, roles):
                     seen.add("part-header")
                     # taken: the slot is left empty so it cannot be emitted twice
-                    took = any(e["k"] == "write" and e.get("via") == "mem::take" for e in o.events)
+                    took = any(e["k"] == "write" and e.get("via") in ("mem::take", "mem::replace", "Option::take") and _is_empty_seq(e.get("value"))
+                               for e in o.events)
                     if took:
                         ctx.ok(rule, "part header h is taken out of the list (emitted once)")
                     else:
@@ -567,8 +630,13 @@ def correspondence(ctx, rule):
     ctx.floor(rule, len(seen), 3, what="kinds of pieces emitted")
 
 
+def _is_empty_seq(v):
+    """the value written back into the slot is an empty buffer (Default::default(), Vec::new(), Vec::with_capacity(..))"""
+    return isinstance(v, tuple) and bool(v) and (v[0] in ("default", "newbuf") or (is_agg(v) and v[3] == "None"))
+
+
 def _post_h(ctx, o, roles):
-    stt = final_read(ctx, o, SELF, (("f", roles["state"]),))
+    stt = read_pos(ctx, o, roles)
     return stt[1] if isinstance(stt, tuple) and stt[0] == "pack" else None
 
 
@@ -590,7 +658,7 @@ def constructor_inv(ctx, rule):
         ops = dict(zip(st["rv"].get("fields", []), st["rv"]["ops"]))
         s = ops.get(roles["state"])
         c = ops.get(roles["cur"])
-        ok = s is not None and s.get("int") == 0
+        ok = s is not None and s.get("int") == 0     # (in the split representation the phase stored here is p=0 by definition)
         outs = ctx.px(b["name"])
         curv = None
         for o in outs:
@@ -624,7 +692,7 @@ def stream_frame(ctx, rule):
         pr = polls[0]["result"]
         if o.cons.variant_of(pr) == "Ready" and o.cons.variant_of(("payload", pr, "Ready", "0")) == "None":
             # the current part ended: the position must advance, otherwise the same part is installed and sent again
-            stt = final_read(ctx, o, SELF, (("f", roles["state"]),))
+            stt = read_pos(ctx, o, roles)
             adv = isinstance(stt, tuple) and stt[0] == "pack" and stt[1] != H
             nend += 1
             if not adv:
@@ -637,7 +705,7 @@ def stream_frame(ctx, rule):
             continue
         n += 1
         cur2 = final_read(ctx, o, SELF, (("f", roles["cur"]),))
-        stt = final_read(ctx, o, SELF, (("f", roles["state"]),))
+        stt = read_pos(ctx, o, roles)
         rem2 = final_read(ctx, o, SELF, (("f", roles["remaining"]),))
         bad = []
         same = False
